@@ -36,15 +36,17 @@ MANIFEST_ENTRY = dict(
     level="exploration", design="DESIGN.md section 4 / C14",
     technique="exhaustive enumeration of filter structures x affine data basis vs null-space least-squares oracle (hpf); "
               "exhaustive value grid vs KKT certificate and duality gap (lonf)",
-    text="hpf: every structure (n=3..6 quick / 3..8 thorough; all interior missing masks; none, one or two level/change "
-         "constraints at every date from P before to P after the data, P=1 quick / 2 thorough) x lambda in {0.1,1,1600} x "
-         "log x 7 output-span kinds is filtered for the full affine data basis and compared with an independent "
-         "least-squares solution of min sum_obs (y-t)^2 + lambda sum (D2 t)^2 s.t. the constraints (1e-8 relative), with "
-         "trend+gap=data (trend*gap for log), exact constraints, superposition of all basis pairs, straight lines "
-         "(exponentials for log) returned unchanged also under line-consistent constraints, span-only-clips, in-place and "
-         "functional forms, two variants with different masks, six frequencies and the documented default lambda.  lonf: "
-         "all vectors of {0,1,3}^n, n=4..7 (thorough ..9 and a second grid), order 1 and 2, lambda in {0.3,1,5}: "
-         "trend+gap=data, dual feasibility, complementary slackness, duality gap; active-set patterns are counted.",
+    text="hpf: every structure (length n=3..6 quick / 3..8 thorough; all interior missing masks; none, one or two level/change "
+         "constraints (L, C, L+C, L+L, C+C) at every date from P before to P after the data, P=1 quick / 2 thorough; three "
+         "constraints L+L+C / L+C+C for n<=4 / n<=5; none/L/C only for n=7 / n=9) x lambda in {0.1,1,1600} x log x 7 "
+         "output-span kinds (thorough: full product; quick: pairwise-covering plan) is filtered for the full affine data basis "
+         "and compared with an independent least-squares solution of min sum_obs (y-t)^2 + lambda sum (D2 t)^2 s.t. the "
+         "constraints (1e-8 relative), with trend+gap=data (trend*gap for log), constraints met to 1e-9, superposition of all "
+         "basis pairs, straight lines (exponentials for log) returned unchanged also under line-consistent constraints, "
+         "span-only-clips (clipping, gap support, pairwise span comparison), in-place and functional forms, two variants with "
+         "different masks (all ordered mask pairs), six frequencies.  lonf: all vectors of "
+         "{0,1,3}^n, n=4..7 (thorough ..9 and a second grid, 5 lambdas), order 1 and 2, lambda in {0.3,1,5}: trend+gap=data, gap "
+         "in range(D'), dual feasibility, complementary slackness, duality gap; active-set patterns are counted.",
     note="Trusted: numpy SVD/lstsq, the 150-line reference ref/c14_trend.py (self-checked on every case by the "
          "reduced-gradient optimality certificate).  Not covered: more than two constrained dates, n>8, lonf data off "
          "the grids, lonf with missing values or sub-spans (undocumented), redundant constraints (recorded only).")
@@ -523,7 +525,7 @@ def shard_hp_masks2(item, res, ctx):
 
 
 def shard_hp_freq(item, res, ctx):
-    """every frequency, documented default lambda (smooth not passed) and an explicit one"""
+    """every frequency, two explicit smoothing parameters"""
     freq, n = item
     seed = ctx.seed
     mid = n // 2
@@ -531,7 +533,9 @@ def shard_hp_freq(item, res, ctx):
     for miss in masks(n):
         cache = {}
         for kind, lpos, cpos in cfgs:
-            for lam in (None, 1.0):
+            # the smoothing parameter is always passed explicitly: the statement is about "the given smoothing parameter";
+            # the per-frequency default table is outside it (docstring and code disagree for MONTHLY - recorded in DESIGN.md)
+            for lam in (1.0, 400.0):
                 for log in (False, True):
                     for spank in ("default", "both"):
                         eval_hp(mk_case(n, miss, kind, lpos, cpos, lam, log, spank, "basis", seed, freq=freq), res, cache)
@@ -729,16 +733,16 @@ def run(ctx, total, info):
         "data_basis": "zero, unit on every observed date, every pair sum, generic vector (affine deviation bound 2)",
     }
     q = ctx.quick
-    info["floors"] = {
-        "hp_calls": (int(hp_total), 60000 if q else 600000),
-        "hp_structures": (cl.get("hp_structure", 0), 1500 if q else 15000),
-        "hp_variants_filtered": (int(total.counters.get("series_variants_filtered", 0)), 500000 if q else 8000000),
-        "hp_span_pairs_compared": (int(total.counters.get("span_pairs_compared", 0)), 30000 if q else 300000),
-        "hp_first_change_dropped": (int(total.counters.get("hp_first_period_change_dropped", 0)), 2000 if q else 10000),
-        "lonf_calls": (int(total.evaluations - hp_total), 10000 if q else 150000),
-        "lonf_active_set_patterns": (cl.get("lonf_active_set", 0), 500 if q else 3000),
-        "lonf_mixed_active_sets": (int(total.counters.get("lonf_cases_mixed_active_set", 0)), 3000 if q else 40000),
-        "distinct_nontrivial": (len(total.nontrivial), 70000 if q else 700000),
+    info["floors"] = {      # ~50 % of the values measured on the unchanged tree
+        "hp_calls": (int(hp_total), 60000 if q else 1200000),
+        "hp_structures": (cl.get("hp_structure", 0), 2500 if q else 20000),
+        "hp_variants_filtered": (int(total.counters.get("series_variants_filtered", 0)), 500000 if q else 14000000),
+        "hp_span_pairs_compared": (int(total.counters.get("span_pairs_compared", 0)), 30000 if q else 700000),
+        "hp_first_change_dropped": (int(total.counters.get("hp_first_period_change_dropped", 0)), 5000 if q else 250000),
+        "lonf_calls": (int(total.evaluations - hp_total), 10000 if q else 290000),
+        "lonf_active_set_patterns": (cl.get("lonf_active_set", 0), 650 if q else 5000),
+        "lonf_mixed_active_sets": (int(total.counters.get("lonf_cases_mixed_active_set", 0)), 5500 if q else 180000),
+        "distinct_nontrivial": (len(total.nontrivial), 70000 if q else 1500000),
     }
     if skipped:          # a capped run is reported as not exhaustive; the floors describe complete runs only
         info["floors"] = {}
